@@ -59,13 +59,6 @@ def run(R, env):
             # R2: on every success path and in the response
             inresp = shared.response_contains_call_at(h, rb) if p["path"] else True
             R.ob("C15.R2", s + ":poster-on-every-success-path", must_pass(h, rb) and inresp, "the oracle message is not in the Response of every success path", loc=h.body.loc(rb), fn=hk)
-            # R1: ordering relative to STATE writes
-            ws = [op for op in storage_ops_deep(prog, h, env.depth) if op["kind"] == "w" and ns_of(prog, op["args"][0]) == "state" and item_crate(op["args"][0]) == CRATE]
-            before = [op for op in ws if op["root_bb"] != rb and not h.body.reaches(rb, [op["root_bb"]], h.removed) and not must_not_precede(h, op["root_bb"], rb)]
-            after = [op for op in ws if op["root_bb"] != rb and h.body.reaches(rb, [op["root_bb"]], h.removed)]
-            dom = [op for op in ws if dominates(h, op["root_bb"], rb)]
-            R.ob("C15.R1", s + ":no-state-write-after-rates", not after, "STATE is written at %s after the rates were computed at %s: the posted rates are those of the state BEFORE this transaction" % ([o["loc"] for o in after], h.body.loc(rb)), loc=h.body.loc(rb), fn=hk)
-            R.ob("C15.R1", s + ":state-write-dominates-rates", bool(dom), "no STATE write lies on every path to the rate computation at %s" % h.body.loc(rb), loc=h.body.loc(rb), fn=hk)
             # R3 content of the message (terms are in the handler's vocabulary)
             t = p["term"]
             red, pur, den = agg_field(t, "redemption_rate"), agg_field(t, "purchase_rate"), agg_field(t, "denom")
@@ -76,8 +69,23 @@ def run(R, env):
                 okc = red[2] == "0" and pur[2] == "1"
             R.ob("C15.R3", s + ":rate-components", okc, "PostRates{redemption_rate: %s, purchase_rate: %s}; expected components .0 and .1 of one rate computation" % (fmt(red or ("none",))[:100], fmt(pur or ("none",))[:100]), loc=p["loc"], fn=hk)
             R.ob("C15.R3", s + ":denom", lst_denom(prog, den), "PostRates.denom = %s, expected config.liquid_stake_token_denom" % fmt(den or ("none",))[:100], loc=p["loc"], fn=hk)
-            if rc is not None:
-                check_rates_fn(R, prog, rc, s, hk)
+            src = rate_source(prog, h, rc, env) if rc is not None else (None, None, None, None)
+            ws = [op for op in storage_ops_deep(prog, h, env.depth) if op["kind"] == "w" and ns_of(prog, op["args"][0]) == "state" and item_crate(op["args"][0]) == CRATE]
+            if src[0] == "memory":
+                # rates of an in-memory state: it must be the state this transaction leaves in storage
+                okS = is_post_state(prog, h, src[1], env)
+                R.ob("C15.R1", s + ":no-state-write-after-rates", okS, "the rates are computed from %s, which is not the value this handler leaves in STATE (writes: %s): the posted rates are not those of the state after this transaction" % (fmt(src[1])[:160], [fmt(o["args"][2])[:100] for o in ws]), loc=h.body.loc(rb), fn=hk)
+                R.ob("C15.R1", s + ":state-write-dominates-rates", bool(ws) and all(must_pass(h, o["root_bb"]) for o in ws), "the state the rates are computed from is not saved on every success path", loc=h.body.loc(rb), fn=hk)
+                if rc is not None:
+                    check_rates_fn(R, prog, rc, s, hk, nat=src[2], lst=src[3])
+            else:
+                # R1: ordering relative to STATE writes (the rate computation re-reads STATE)
+                after = [op for op in ws if op["root_bb"] != rb and h.body.reaches(rb, [op["root_bb"]], h.removed)]
+                dom = [op for op in ws if dominates(h, op["root_bb"], rb)]
+                R.ob("C15.R1", s + ":no-state-write-after-rates", src[0] == "stored" and not after, "STATE is written at %s after the rates were computed at %s: the posted rates are those of the state BEFORE this transaction" % ([o["loc"] for o in after], h.body.loc(rb)), loc=h.body.loc(rb), fn=hk)
+                R.ob("C15.R1", s + ":state-write-dominates-rates", bool(dom), "no STATE write lies on every path to the rate computation at %s" % h.body.loc(rb), loc=h.body.loc(rb), fn=hk)
+                if rc is not None:
+                    check_rates_fn(R, prog, rc, s, hk)
         # envelope
         for c, path, bi, si, t in aggregates_deep(prog, h, lambda adt, var: adt.endswith("wasm::v1::MsgExecuteContract"), env.depth + 1):
             snd, con, funds, msg = agg_field(t, "sender"), agg_field(t, "contract"), agg_field(t, "funds"), agg_field(t, "msg")
@@ -98,7 +106,13 @@ def run(R, env):
         good = r is not None and r[0] == "field" and r[2] == "1" and r[1][0] == "call"
         R.ob("C15.R3", "StateQuery:rate-is-purchase-rate", good, "StateResponse.rate = %s, expected component .1 of the rate computation" % fmt(r or ("none",))[:120], loc=c.body.loc(bi, si), fn=c.body.key)
         if good:
-            check_rates_fn(R, prog, r[1], "StateQuery", c.body.key)
+            src = rate_source(prog, c, r[1], env)
+            if src[0] == "memory":
+                okq = src[1][0] == "payload" and is_load(prog, src[1], "state", CRATE)
+                R.ob("C15.R3", "StateQuery:rates-of-the-stored-state", okq, "the State query computes its rate from %s, not from the stored state" % fmt(src[1])[:120], loc=c.body.loc(bi, si), fn=c.body.key)
+                check_rates_fn(R, prog, r[1], "StateQuery", c.body.key, nat=src[2], lst=src[3])
+            else:
+                check_rates_fn(R, prog, r[1], "StateQuery", c.body.key)
     R.floor("C15.R3", "StateResponse constructions", n_q, 1)
 
     # ---------------- R4 optional oracle
@@ -194,27 +208,89 @@ def must_not_precede(h, a, b):
     return False
 
 
-def check_rates_fn(R, prog, rc, site, hk):
-    """rc = call term of the rate computation (a local function)."""
+def check_rates_fn(R, prog, rc, site, hk, nat=None, lst=None):
+    """rc = call term of the rate computation (a local function).  nat / lst recognise the staked
+    and the LST total inside it (default: fields of the state the function loads from storage)."""
     cb = shared._body_of_call(prog, rc)
     if cb is None:
         R.ob("C15.R3", site + ":rates-fn", False, "rate computation %s is not a local function" % fmt(rc)[:80], fn=hk)
         return
-    c = Ctx(cb)
-    is_lst_zero = lambda t: t[0] == "call" and t[1] == "cosmwasm_std::Uint128::is_zero" and loaded_field(prog, t[2][0], "state", ["total_liquid_stake_token"], CRATE)
-    is_nat_zero = lambda t: t[0] == "call" and t[1] == "cosmwasm_std::Uint128::is_zero" and loaded_field(prog, t[2][0], "state", ["total_native_token"], CRATE)
+    c = Ctx(cb, params={i + 1: a for i, a in enumerate(rc[2])})
+    raw = c.T.return_term()
+    if raw[0] == "call" and shared._body_of_call(prog, raw) is not None and shared._body_of_call(prog, raw).key != cb.key:
+        # the function only loads the state and delegates the formula to another local function
+        return check_rates_fn(R, prog, raw, site, hk, nat, lst)
+    from engine.analysis import resolve_terms as _rt
+    RR = lambda t: norm(_rt(prog, t, 2))
+    # nat / lst may be given as reference TERMS (in-memory state): compare after inlining pure helpers on both sides
+    if nat is not None and not callable(nat):
+        nref = RR(nat)
+        nat = lambda t, nref=nref: RR(t) == nref
+    if lst is not None and not callable(lst):
+        lref = RR(lst)
+        lst = lambda t, lref=lref: RR(t) == lref
+    nat = nat or (lambda t: loaded_field(prog, t, "state", ["total_native_token"], CRATE))
+    lst = lst or (lambda t: loaded_field(prog, t, "state", ["total_liquid_stake_token"], CRATE))
+    is_lst_zero = lambda t: t[0] == "call" and t[1] == "cosmwasm_std::Uint128::is_zero" and lst(t[2][0])
+    is_nat_zero = lambda t: t[0] == "call" and t[1] == "cosmwasm_std::Uint128::is_zero" and nat(t[2][0])
     rem, n = bool_world_edges(c, is_lst_zero, False)
     rem_n, _ = bool_world_edges(c, is_nat_zero, False)  # an additional zero-staked guard is allowed
     w = c.with_removed(rem | rem_n).settle()
-    rt = w.T.return_term()
-    nat = lambda t: loaded_field(prog, t, "state", ["total_native_token"], CRATE)
-    lst = lambda t: loaded_field(prog, t, "state", ["total_liquid_stake_token"], CRATE)
+    from engine.analysis import resolve_terms
+    rt = resolve_terms(prog, w.T.return_term(), 2)
     fr = lambda t, a, b: t[0] == "call" and t[1] == "cosmwasm_std::Decimal::from_ratio" and a(t[2][0]) and b(t[2][1])
     good = n >= 1 and rt[0] == "tuple" and len(rt[1]) == 2 and fr(rt[1][0], nat, lst) and fr(rt[1][1], lst, nat)
-    R.ob("C15.R3", site + ":rates-formula", good, "with LST > 0 (and a non-zero staked total) the rate computation returns %s; expected (from_ratio(stored native, stored lst), from_ratio(stored lst, stored native))" % fmt(rt)[:240], fn=cb.key)
+    R.ob("C15.R3", site + ":rates-formula", good, "with LST > 0 (and a non-zero staked total) the rate computation returns %s; expected (from_ratio(staked, lst), from_ratio(lst, staked)) of the post-transaction state" % fmt(rt)[:240], fn=cb.key)
     rem, n2 = bool_world_edges(c, is_lst_zero, True)
     w0 = c.with_removed(rem).settle()
-    rt0 = w0.T.return_term()
+    rt0 = resolve_terms(prog, w0.T.return_term(), 2)
     z = lambda t: t[0] == "call" and t[1] == "cosmwasm_std::Decimal::zero"
     good0 = n2 >= 1 and rt0[0] == "tuple" and len(rt0[1]) == 2 and z(rt0[1][0]) and z(rt0[1][1])
     R.ob("C15.R3", site + ":zero-lst-guard", good0, "with LST = 0 the rate computation returns %s; expected (0, 0) without dividing" % fmt(rt0)[:160], fn=cb.key)
+
+
+def rate_source(prog, h, rc, env):
+    """where do the totals of the rate computation `rc` come from?
+       ('stored', None, None, None)      the function loads STATE itself (ordering matters: R1)
+       ('memory', S, nat_term, lst_term) it is given the totals of an in-memory state S
+       (None, ..)                        unrecognised"""
+    cb = shared._body_of_call(prog, rc)
+    if cb is None:
+        return (None, None, None, None)
+    from engine.analysis import storage_ops_deep as sod
+    loads = [o for o in sod(prog, Ctx(cb), 2) if o["op"] in ("load", "may_load") and ns_of(prog, o["args"][0]) == "state"]
+    if loads:
+        return ("stored", None, None, None)
+    # candidates for the in-memory state S: values this handler writes to STATE, and STATE loads /
+    # STATE.update results that occur inside the arguments
+    from engine.mir import field_of
+    cands = []
+    for o in sod(prog, h, env.depth):
+        if o["kind"] == "w" and ns_of(prog, o["args"][0]) == "state" and item_crate(o["args"][0]) == CRATE and o["op"] == "save":
+            cands.append(o["args"][2])
+    for a in rc[2]:
+        for s_ in subterms(a):
+            if s_[0] == "payload":
+                c_ = shared.unwrap_payload(s_)
+                if c_[0] == "call" and c_[1] in ("cw_storage_plus::Item::update", "cw_storage_plus::Item::load") and ns_of(prog, c_[2][0]) == "state":
+                    cands.append(s_)
+    args_n = [norm(a) for a in rc[2]]
+    for S in cands:
+        nV, lV = field_of(S, "total_native_token"), field_of(S, "total_liquid_stake_token")
+        if norm(nV) in args_n and norm(lV) in args_n:
+            return ("memory", S, nV, lV)
+        if norm(S) in args_n:  # a `&State` argument
+            return ("memory", S, nV, lV)
+    return (None, None, None, None)
+
+
+def is_post_state(prog, h, S, env):
+    """S is the value this handler leaves in STATE: the Ok payload of STATE.update(..), or identical by
+    origin to the value of EVERY STATE write of the handler (so no later write changes it)."""
+    c = shared.unwrap_payload(S) if S[0] == "payload" else S
+    if S[0] == "payload" and c[0] == "call" and c[1] == "cw_storage_plus::Item::update" and ns_of(prog, c[2][0]) == "state":
+        return True
+    ws = [o for o in storage_ops_deep(prog, h, env.depth) if o["kind"] == "w" and ns_of(prog, o["args"][0]) == "state" and item_crate(o["args"][0]) == CRATE]
+    if not ws:
+        return False
+    return all(o["op"] == "save" and norm(o["args"][2]) == norm(S) for o in ws)
